@@ -384,11 +384,14 @@ class World:
 # value model helpers
 
 
-def to_model(v, LazyList, limit=200):
+def to_model(v, LazyList, limit=200, depth=0):
     """Canonical, hashable-free structural form of a Vyxal value.  Forces lazy lists (so it is an
     observation and must only be called where the schedule says so)."""
     import sympy
     import types
+
+    if depth > 12:
+        return ["deep"]
 
     if isinstance(v, bool):
         return int(v)
@@ -412,13 +415,13 @@ def to_model(v, LazyList, limit=200):
         out = []
         it = iter(v)
         for x in it:
-            out.append(to_model(x, LazyList, limit))
+            out.append(to_model(x, LazyList, limit, depth + 1))
             if len(out) > limit:
                 out.append("...")
                 break
         return out
     if isinstance(v, (list, tuple)):
-        return [to_model(x, LazyList, limit) for x in v]
+        return [to_model(x, LazyList, limit, depth + 1) for x in v]
     return ["?", type(v).__name__, repr(v)[:40]]
 
 
